@@ -912,6 +912,9 @@ def compare(ctx, cases, impl, index, model):
             K = im["_K"]
             real_out = "done" if im["err"] is None else "raise"
             ctx.bump("model_outcome:" + mv["outcome"])
+            ctx.bump("wf_heap:" + str(mv["wf"]).lower())
+            if mv["wf"] is not True:
+                ctx.disagreement("hypothesis: the snapshot heap is well-formed (Wf.wf_heap)", c, "snapshot", mv["wf"])
             if mv["outcome"] == "unsupported":
                 ctx.bump("model:unsupported")
             elif mv["outcome"] != real_out:
@@ -954,7 +957,7 @@ def compare(ctx, cases, impl, index, model):
 
 
 def run(ctx):
-    n = int(os.environ.get("VERIF_C16_N", 200 if ctx.quick else 6000))
+    n = int(os.environ.get("VERIF_C16_N", 160 if ctx.quick else 6000))
     ctx.coverage["rule"] = (
         "one case = a generated (old, new) pair of module versions (plain / closure-made / decorated / aliased "
         "functions with defaults, docs and attributes; classes with methods, static and class methods, properties, "
@@ -971,6 +974,7 @@ def run(ctx):
         "CPython's acceptance of `oldclass.__bases__ = newclass.__bases__` is an oracle (evaluated on a clone of the old class)",
         "'observationally equal to a fresh import' is NOT proved: it is decided by this correspondence and the behavioural oracle only",
         "ids of transient objects are assumed not to be recycled into the livepatch cache / visit stack during one reload",
+        "every snapshot heap satisfies the well-formedness checker Wf.wf_heap (unique addresses, stored addresses allocated, kinds consistent); evaluated in the kernel on every case",
     ]
     ctx.notes["trusted_base"] = ["harness snapshot of the CPython object graph (harness/c16.py Snap)"]
     cm.check_anchors(ctx, ANCHORS)
